@@ -5,8 +5,8 @@ package gosym
 
 import (
 	"fmt"
-	"os"
 	"go/types"
+	"os"
 	"sort"
 	"strings"
 	"time"
@@ -41,46 +41,46 @@ type Violation struct {
 }
 
 type pathState struct {
-	decs      []decision
-	pos       int
-	checkAt   int
-	pc        []*Term
-	known     map[int]bool
-	vars      []*Term
-	varKinds  map[string]types.BasicKind
-	chooses   map[string]int
-	chooseSeq []string
-	notes     map[string]string
-	reached   map[string]bool
-	atoms     map[int]*decAtom // term id -> digitisation (per path)
-	linked    map[*decAtom]bool
-	tblVars   map[tblKey]*Term // large-table reads abstracted on this path
-	tblRecs   []*tblRec
-	pinned    map[int]uint64 // terms concretised to a value on this path
-	tblFacts  []*Term
-	asserts   int
-	unsatAsserts int
-	knownHit  map[string]bool
-	labels    map[string]string
-	noteBytes map[string][]value
+	decs                    []decision
+	pos                     int
+	checkAt                 int
+	pc                      []*Term
+	known                   map[int]bool
+	vars                    []*Term
+	varKinds                map[string]types.BasicKind
+	chooses                 map[string]int
+	chooseSeq               []string
+	notes                   map[string]string
+	reached                 map[string]bool
+	atoms                   map[int]*decAtom // term id -> digitisation (per path)
+	linked                  map[*decAtom]bool
+	tblVars                 map[tblKey]*Term // large-table reads abstracted on this path
+	tblRecs                 []*tblRec
+	pinned                  map[int]uint64 // terms concretised to a value on this path
+	tblFacts                []*Term
+	asserts                 int
+	unsatAsserts            int
+	knownHit                map[string]bool
+	labels                  map[string]string
+	noteBytes               map[string][]value
 	lastModel, pendingModel map[string]uint64
-	modelMemo map[int]uint64
-	pendingFor *Term
-	kfCandidates []*Finding
+	modelMemo               map[int]uint64
+	pendingFor              *Term
+	kfCandidates            []*Finding
 }
 
 func (in *Interp) newPath(decs []decision, checkAt int) *pathState {
 	return &pathState{
 		decs: decs, checkAt: checkAt,
-		known:    map[int]bool{},
-		varKinds: map[string]types.BasicKind{},
-		chooses:  map[string]int{},
-		notes:    map[string]string{},
-		reached:  map[string]bool{},
-		atoms:    map[int]*decAtom{},
-		linked:   map[*decAtom]bool{},
-		knownHit: map[string]bool{},
-		labels:   map[string]string{},
+		known:     map[int]bool{},
+		varKinds:  map[string]types.BasicKind{},
+		chooses:   map[string]int{},
+		notes:     map[string]string{},
+		reached:   map[string]bool{},
+		atoms:     map[int]*decAtom{},
+		linked:    map[*decAtom]bool{},
+		knownHit:  map[string]bool{},
+		labels:    map[string]string{},
 		noteBytes: map[string][]value{},
 	}
 }
